@@ -61,6 +61,22 @@ void DTOR_NAME(CAPSULE_T *cap)
 
 #include "stmts.inc"
 
+#ifdef __cplusplus
+/* the wrapped "library" of the probe (prb.hpp) and the generated wrappers of wrapprb.cpp */
+static std::string g_wtext; static int g_wnull;
+const std::string * getp() { return new std::string(g_wtext); }
+const char * getc()
+{
+    if (g_wnull) return NULL;
+    char *p = (char *) malloc(g_wtext.size() + 1);
+    memcpy(p, g_wtext.data(), g_wtext.size()); p[g_wtext.size()] = 0;
+    return p;
+}
+int order(std::string & a) { return (int) a.size(); }
+extern "C" void PRB_getp_bufferify(char * SHF_rv, int NSHF_rv);
+extern "C" void PRB_getc_bufferify(char * SHF_rv, int NSHF_rv);
+#endif
+
 #define GUARD 64
 #define FILLB 0xA5
 #define MAXB 64
@@ -295,6 +311,24 @@ int main(void)
             box_free(&s);
         }
 #ifdef __cplusplus
+        else if (strcmp(tok[0], "wflow") == 0 && nt == 4) {
+            /* a whole C wrapper as generated by Shroud for the probe library (wrapprb.cpp, linked in):
+               result copied into character(len=L) with a user `final:` clause that releases it */
+            Box t = box_parse(tok[2]);
+            Box c = box_parse(tok[3]);
+            g_wnull = c.null;
+            g_wtext.assign(c.null ? "" : c.p, c.cap);
+            size_t h1 = __sanitizer_get_current_allocated_bytes();
+            if (strcmp(tok[1], "string_ptr_result_final") == 0) PRB_getp_bufferify(t.p, (int) t.cap);
+            else if (strcmp(tok[1], "char_ptr_result_final") == 0) PRB_getc_bufferify(t.p, (int) t.cap);
+            else g_err |= 256;
+            g_wtext.clear(); g_wtext.shrink_to_fit();
+            if (__sanitizer_get_current_allocated_bytes() > h1) g_err |= 64;     /* the result was not released */
+            box_done(&t); box_done(&c);
+            strcpy(out, "ok seen=none f=");
+            put_bytes(out, (unsigned char *) t.p, t.cap, 0);
+            box_free(&t); box_free(&c);
+        }
         else if (strcmp(tok[0], "oflow") == 0 && nt == 3) {
             /* owned allocatable result: statement lines of c_string_scalar_result_buf_allocatable
                (new std::string, ShroudStrToArray with a destructor index), then the Fortran side:
